@@ -13,7 +13,7 @@ import (
 func init() {
 	register(&Property{
 		ID: "C20", Level: "exploration", Builds: []string{"plain", "race"},
-		Rule:        "cases = stored maps {mixed signs, duplicate values, width extremes, single column, small/large; big values +-2^100 on the 64-bit index so that both comparison implementations (plane algebra for <= 63 planes, per-column scan above) are forced} on both BSI implementations, auto-sized and fixed-width, optionally run-optimized; queries: CompareValue / CompareBigValue with LT, LE, EQ, GE, GT, RANGE x constants within the index's representable range (every stored value and its neighbours, range ends, 0, -1) x found-sets {nil, all columns, random subset, singleton, the index's own existence bitmap} x workers {0,1,2,5,16}; CompareBSI against a second index; BatchEqual / BatchEqualBig / BatchEqualValues (value lists with stored, absent and duplicate values; sub-cube shaped lists for the cube shortcut; one 100000-column index with >= 128 scattered values for the 32-bit parallel scan); MinMax / MinMaxBig over non-empty found-sets; Sum / SumBigValues; Transpose / IntersectAndTranspose / TransposeWithCounts when all values are valid column ids. Oracle = the predicate evaluated on each stored value of the model. Every returned bitmap is then mutated and the query repeated (independence), and the index re-read. The same unit runs under the race detector. Non-trivial: >= 2 stored columns; distinct = hash(map, implementation, options).",
+		Rule:        "cases = stored maps {mixed signs, duplicate values, width extremes, single column, small/large; big values +-2^100 on the 64-bit index so that both comparison implementations (plane algebra for <= 63 planes, per-column scan above) are forced} on both BSI implementations, auto-sized and fixed-width, optionally run-optimized; queries: CompareValue / CompareBigValue with LT, LE, EQ, GE, GT, RANGE x constants within the index's representable range (every stored value and its neighbours, range ends, 0, -1) x found-sets {nil, all columns, random subset, singleton, the index's own existence bitmap} x workers {0,1,2,5,16}; CompareBSI against a second index; BatchEqual / BatchEqualBig / BatchEqualValues (value lists with stored, absent and duplicate values; sub-cube shaped lists for the cube shortcut; one 100000-column index with >= 128 scattered values for the 32-bit parallel scan); MinMax / MinMaxBig over non-empty found-sets; Sum / SumBigValues; Transpose / IntersectAndTranspose / TransposeWithCounts when all values are valid column ids. Oracle = the predicate evaluated on each stored value of the model. Every returned bitmap is then mutated and the query repeated (independence), and the index re-read. The same unit runs under the race detector. Non-trivial: >= 2 stored columns; distinct = hash(map, implementation, options). Empty indexes, empty value lists, RANGE with start > end and complete value cubes of narrow indexes are included; every BatchEqual result is mutated by the caller and the query repeated; the big parallel-scan indexes hold both signs in three quarters of the cases.",
 		Assumptions: []string{"comparison constants lie within the index's range (32-bit index without negative values: [0, 2^BitCount); with negative values: int64; 64-bit index: [min,max] or the two's-complement range of its planes)", "found-sets contain existing columns only", "MinMax on an empty set returns a sentinel and is out of scope", "roaring64 TransposeWithCounts filters on VALUES and defaults the filter to the existence bitmap; an explicit filter is always passed"},
 		Units: []Unit{
 			{Name: "queries@plain,race", Quick: 8000, Thorough: 300000, Run: c20Queries},
